@@ -836,7 +836,16 @@ def _models_check(rec, models, name, args, out):
         cond = float(np.max(aev) / max(np.min(aev), 1e-300))
     except Exception:  # noqa
         cond = INF
-    ent = {"op": name, "res": float(res), "scale": float(scale), "cond": cond,
+    # magnitude of the terms the stored quadratics are made of, at the distance of the interpolation points from
+    # the base (they may cancel by many orders once a barrier value has left the set; evaluating the model cannot
+    # be more accurate than eps times this)
+    rr = float(np.max(np.linalg.norm(it.xpt, axis=0), initial=0.0))
+    ysq = np.sum(it.xpt ** 2, axis=0)
+    rep = 0.0
+    for q in [models._fun] + list(models._cub) + list(models._ceq):
+        h = float(np.sum(np.abs(q._i_hess) * ysq) + np.sum(np.abs(q._e_hess)) * rr * rr)
+        rep = max(rep, abs(float(q._const)) + float(np.sum(np.abs(q._grad))) * rr + h)
+    ent = {"op": name, "res": float(res), "scale": float(scale), "cond": cond, "repr": rep if np.isfinite(rep) else INF,
            "ill": bool(out) if name == "update_interpolation" else False}
     if name == "update_interpolation":
         k_new, x_new, f, cub, ceq = args
